@@ -44,8 +44,8 @@ Section Written.
     destruct (edges_adjacency conns r Hr) as [HL HR].
     assert (Hcase : (e_a r, e_b r) = f \/ (e_b r, e_a r) = f).
     { unfold edge_key, key in Hk. cbn [fst snd] in Hk. destruct f as [a b]. cbn [fst snd] in Hk. inversion Hk as [[E1 E2]].
-      destruct (Nat.le_ge_cases (e_a r) (e_b r)) as [L | L]; destruct (Nat.le_ge_cases a b) as [L' | L'];
-        rewrite ?Nat.min_l, ?Nat.max_r, ?Nat.min_r, ?Nat.max_l in E1, E2 by assumption; subst; auto. }
+      assert (Hab : (e_a r = a /\ e_b r = b) \/ (e_b r = a /\ e_a r = b)) by lia.
+      destruct Hab as [[-> ->] | [-> ->]]; auto. }
     destruct Hcase as [E | E].
     - rewrite E in HL. destruct (holder_unique conns _ _ _ _ _ Hnd HL Hh) as [E1 E2].
       exists e, r, ((e_tl r, e_pl r), true). split; [exact He |]. split; [unfold slots_of; now left |]. cbn [fst]. congruence.
